@@ -30,7 +30,7 @@ int mpt_message_id2buf(uint64_t id, void *ptr, size_t len)
 		if (id) ++used;
 		buf[len] = 0xff & id;
 	}
-	if (id) {
+	if (id / 0x100) {
 		return MPT_ERROR(MissingBuffer);
 	}
 	if ((*buf & 0x80)) {
